@@ -95,8 +95,20 @@ def rule_mode(ctx):
     ctx.require(swa is not None and sws is not None, 'C10.mode', 'sched mode switches not found')
     na = normal(pa, 'cls') + normal(swa.body, 'cls')
     ns = normal(ps, 'cls') + normal(sws.body, 'cls')
-    ctx.ob('C10.mode', f'{a.fq}:nrt-vs-SystemClock.sched', na == ns,
-           f'AppClock.sched NRT {na} must mirror SystemClock.sched NRT {ns}', swa, m)
+    # argument normalisations of AppClock's rt path (Scheduler.sched: a delta of None means now) must be made by its nrt branch too;
+    # apart from them the nrt branch mirrors SystemClock's
+    ss = m.classes['Scheduler'].methods['sched']
+    dparam = ss.params[1]
+    rt_norms = [norm(x).replace(dparam, a.params[1]) for x in ss.node.body if isinstance(x, ast.If) and
+                isinstance(U.compare_parts(x.test) and U.compare_parts(x.test)[2], ast.Constant) and
+                U.compare_parts(x.test)[1] is ast.Is and U.compare_parts(x.test)[2].value is None and norm(U.compare_parts(x.test)[0]) == dparam]
+    missing = [x for x in rt_norms if x not in na]
+    ctx.ob('C10.mode', f'{a.fq}:nrt-normalises-like-rt', not missing,
+           f'AppClock rt (Scheduler.sched) normalises its delta with {rt_norms}; the nrt branch lacks {missing}: sched(None, f) runs now in rt '
+           f'and raises TypeError in nrt', swa, m)
+    na_core = [x for x in na if x not in rt_norms]
+    ctx.ob('C10.mode', f'{a.fq}:nrt-vs-SystemClock.sched', na_core == ns,
+           f'AppClock.sched NRT {na_core} must mirror SystemClock.sched NRT {ns}', swa, m)
     # other switches: NRT branch is `return` (nothing to do without a thread) - enumerate them all
     sw_all = []
     for fi in m.functions.values():
@@ -228,7 +240,7 @@ def rule_mode(ctx):
 
 def rule_wake(ctx):
     ctx.rule('C10.wake', 'all wake-up sites run: _update_logical_time(t); delta = task.__awake__(clock); re-queue when delta is '
-                         'int/float and not bool at t + delta in the clock unit; StopStream dropped; Exception logged')
+                         'int/float, not bool and not inf (as sched drops an infinite time) at t + delta in the clock unit; StopStream dropped; Exception logged')
     m = ctx.repo.module('sc3.base.clock')
     sites = ['SystemClock._run', 'TempoClock._run', 'Scheduler._wakeup', 'ClockTask._wakeup']
     sig = {}
@@ -247,13 +259,16 @@ def rule_wake(ctx):
                 aw = [c for c in U.calls(s) if U.method_name(c) == '__awake__'][0]
                 steps.append('awake-arg:' + ('clock' if norm(aw.args[0]) in ('cls', 'self', 'self._clock', 'self.clock') else norm(aw.args[0])))
             elif isinstance(s, ast.If) and 'isinstance(delta' in src:
-                steps.append('pred:' + norm(s.test))
+                # the numeric test; a conjunct that only filters infinity is the finite-time rule's business (C08.resched) and may
+                # equally sit inside the branch
+                cj = [norm(c) for c in U.conjuncts(s.test) if 'inf' not in norm(c)]
+                steps.append('pred:' + ' and '.join(cj))
                 steps.append('requeue')
         handlers = [(norm(h.type) if h.type else 'bare', 'pass' if all(isinstance(x, ast.Pass) for x in h.body) else
                      ('log' if any('_logger.error' in norm(x) for x in h.body) and not any(isinstance(y, ast.Raise) for x in h.body for y in ast.walk(x)) else 'other'))
                     for h in t.handlers]
         sig[q] = (tuple(steps), tuple(handlers))
-    ref = (('update', 'awake', 'awake-arg:clock', 'pred:isinstance(delta, (int, float)) and (not isinstance(delta, bool))', 'requeue'),
+    ref = (('update', 'awake', 'awake-arg:clock', 'pred:isinstance(delta, (int, float)) and not isinstance(delta, bool)', 'requeue'),
            (('stm.StopStream', 'pass'), ('Exception', 'log')))
     for q, s in sig.items():
         steps = tuple(x for x in s[0] if x not in ())
@@ -459,6 +474,8 @@ def run(ctx):
 
 
 MUTANTS = [
+    dict(rule='C10.mode', name='AppClock nrt branch does not accept a None delta (fix reverted)', file='sc3/base/clock.py',
+         old="            if delta is None:  # As Scheduler.sched.\n                delta = 0.0\n", new=""),
     dict(rule='C10.wake', name='NRT logical time clamped to be monotonic (seed C10-c)', file='sc3/base/main.py',
          old="        # In nrt physical time and logical time are the same.\n        cls.main_tt._m_seconds = seconds",
          new="        if seconds > cls.main_tt._m_seconds:\n            cls.main_tt._m_seconds = seconds"),
@@ -492,7 +509,7 @@ MUTANTS = [
     dict(rule='C10.mode', name='TempoClock.sched_abs NRT adds current beats', file='sc3/base/clock.py',
          old="            self._sched_add_nrt(beat, item)", new="            self._sched_add_nrt(beat + self.beats, item)"),
     dict(rule='C10.wake', name='bool test dropped in NRT wake-up', file='sc3/base/clock.py',
-         old="            if isinstance(delta, (int, float)) and not isinstance(delta, bool):\n                self.beats = ", new="            if isinstance(delta, (int, float)):\n                self.beats = "),
+         old="            if isinstance(delta, (int, float)) and not isinstance(delta, bool)\\\n            and delta != float('inf'):  # As sched.\n                self.beats = ", new="            if isinstance(delta, (int, float))\\\n            and delta != float('inf'):  # As sched.\n                self.beats = "),
     dict(rule='C10.wake', name='NRT wake-up lets exceptions escape', file='sc3/base/clock.py',
          old="        except Exception:\n            _logger.error(\n                '%s(%s) scheduled on ClockScheduler',", new="        except ValueError:\n            _logger.error(\n                '%s(%s) scheduled on ClockScheduler',"),
     dict(rule='C10.rng', name='builtin draws from module-level random', file='sc3/base/builtins.py',
@@ -520,6 +537,9 @@ REPAIRS = []
 
 
 EQUIV = [
+    dict(name='returned infinity filtered on the computed time inside the branch', file='sc3/base/clock.py',
+         old="                        and not isinstance(delta, bool)\\\n                        and delta != float('inf'):  # As sched.\n                            time = sched_time + delta\n                            cls._sched_add(time, task)",
+         new="                        and not isinstance(delta, bool):\n                            time = sched_time + delta\n                            if not math.isinf(time):\n                                cls._sched_add(time, task)"),
     dict(name='tempo setter delegates its notify to a helper', file='sc3/base/clock.py',
          old="        # en tempo_\n        mdl.NotificationCenter.notify(self, 'tempo')\n        if self.mode == _libsc3.main.NRT_MODE:\n            _libsc3.main._clock_scheduler.rekey(self)\n        else:\n            with self._sched_cond:\n                self._sched_cond.notify()  # NOTE: is notify_one in C++.\n\n    def etempo",
          new="        # en tempo_\n        mdl.NotificationCenter.notify(self, 'tempo')\n        self._map_changed()\n\n    def _map_changed(self):\n        if self.mode == _libsc3.main.NRT_MODE:\n            _libsc3.main._clock_scheduler.rekey(self)\n        else:\n            with self._sched_cond:\n                self._sched_cond.notify()  # NOTE: is notify_one in C++.\n\n    def etempo"),
